@@ -18,9 +18,13 @@ CHECKS = {
            "encoder emits matches a text iff the text is in the documented language Lang (expansions + flat-position semantics, stated without regexes); per-leaf "
            "statements (`?`, `*`/`$`, classes independent of the case-folding relation, lone tree wildcard = every text incl. newline). Tie: token tree, regex text, "
            "is_match vs the extracted model engine, which is itself proved to decide the language sem (C01_model_engine_decides_the_language: sound, fuel adequate), so the differential test validates sem against the regex crate. Oracle: is_match vs the executable Spec.spec_match; outside trees_exact only the three named known classes are tolerated.",
-    'C04': "Proved: the compiled program has exactly one group per capturing token of the top-level concatenation and none for nested tokens; wildcard groups are "
-           "separator-free. Tie: captures() and every capture span (borrowed/owned, indices 0..n+1) vs the model's leftmost-first matcher. Oracle: ordering, disjointness, "
-           "separator-freeness, complete components, re-match of each capture by its own sub-expression.",
+    'C04': "Proved (all globs, all paths, every parse the engine can end with): C04_captures_are_a_consistent_assignment - the path splits into one text per top-level "
+           "token, each matched by its own token; a capturing token other than a tree wildcard recorded exactly its text in its own group, a tree wildcard nothing or a "
+           "span inside its text; groups numbered in token order (ordered, disjoint; one group per capturing token, none for nested tokens; wildcard groups "
+           "separator-free). The statement is for any final continuation, so it covers the leftmost-first parse and the parse the regex crate picks (it lifts common "
+           "alternation prefixes); the tie accepts a differing assignment only if the model engine finds a parse with exactly it. Tie: captures() and every capture "
+           "span (borrowed/owned, indices 0..n+1) vs the model engine. Oracle: ordering, disjointness, separator-freeness, complete components, re-match of each "
+           "capture by its own sub-expression.",
     'C05': "Proved (all strings / all token trees): the parser model never takes its out-of-fuel exit (C05_parser_never_out_of_fuel: every token consumes a character, "
            "nesting costs four units of fuel per character), so the model of Glob::new is total; the variance algebra is closed - no unreachable!()/expect site is "
            "reachable, the depth / size / text / exhaustiveness queries and the rule checker can only fail by a checked-arithmetic overflow "
